@@ -9,7 +9,8 @@ The closed theorem `parse … = r → Sem … r` (for the *plain* fragment below
 
 Plain fragment (`plainNode`): Literal (both classes), Empty, NoMatch, StringEnd, the character-class terminals Word /
 CharsNotIn / Keyword / CaselessLiteral / LineEnd / WordStart / WordEnd (taken as given matchers), And (non-empty, no error stop),
-MatchFirst, Opt (no default), OneOrMore / ZeroOrMore (no stop_on), NotAny, FollowedBy, Group, Suppress, assigned
+MatchFirst, Opt (with or without default), OneOrMore / ZeroOrMore (no stop_on), NotAny, FollowedBy, Group, Suppress,
+Combine (its `adjacent` is the children's whitespace configuration), assigned
 Forward, plain wrappers; no parse actions / results names, no ignorables. Whitespace skipping (`skipWhitespace`,
 `whiteChars`, `callPreparse`) is unrestricted — it is the point of the property.
 -/
@@ -47,9 +48,15 @@ def leafSem (k : Kind) (s : List Char) (loc : Nat) : Option Res :=
 def wrapped : Kind → Option Nat
   | .group e => some e
   | .suppress e => some e
+  | .combine e _ => some e
   | .enhance e => some e
   | .forward (some e) => some e
   | _ => none
+
+/-- what a non-matching `Opt` contributes: nothing, or its default value -/
+def dfltToks : Option (List Char) → List Tok
+  | none => []
+  | some v => [.s v]
 
 inductive Task where
   /-- `expr._parse(instring, loc, callPreParse = cp)` of the node `id` -/
@@ -83,9 +90,9 @@ inductive Sem (g : Grammar) (s : List Char) : Task → Res → Prop where
   | altNil {loc} : Sem g s (.alt [] loc) none
   | altOk {e es loc x} : Sem g s (.node e loc true) (some x) → Sem g s (.alt (e :: es) loc) (some x)
   | altNext {e es loc r} : Sem g s (.node e loc true) none → Sem g s (.alt es loc) r → Sem g s (.alt (e :: es) loc) r
-  /-- `Opt(e)`: `e`'s match, else the empty match where Opt started -/
-  | opt {nd loc e r} : nd.kind = .opt e none → Sem g s (.node e loc false) r →
-      Sem g s (.impl nd loc) (some (r.getD (loc, [])))
+  /-- `Opt(e)` / `Opt(e, default)`: `e`'s match, else the empty match (or the default value) where Opt started -/
+  | opt {nd loc e d r} : nd.kind = .opt e d → Sem g s (.node e loc false) r →
+      Sem g s (.impl nd loc) (some (r.getD (loc, dfltToks d)))
   /-- `e[1, ...]` / `e[...]`: greedy, never gives back, every iteration skips for itself and must advance -/
   | manyFail {nd loc e one} : nd.kind = .many e none one → Sem g s (.node e loc true) none →
       Sem g s (.impl nd loc) (if one then none else some (loc, []))
